@@ -81,10 +81,14 @@ def masked(doc, positions):
         if pos in hide:
             return ("SECRET",)
         if isinstance(node, dict):
+            # own keys only: what a YAML merge key brings in is the anchored
+            # collection itself, seen (and masked) at its own position
+            items = node.non_merged_items() \
+                if hasattr(node, "non_merged_items") else node.items()
             return ("m", tuple(
                 (snapshot.typed(k),
                  conv(v, pos + (("k", snapshot.typed(k)),)))
-                for k, v in node.items()))
+                for k, v in items))
         if isinstance(node, list):
             return ("l", tuple(conv(v, pos + (("i", i),))
                                for i, v in enumerate(node)))
